@@ -3,10 +3,10 @@ package main
 // Calls: contracts, inlining, builtins, external models, abstraction by havoc.
 
 import (
-	"sort"
 	"fmt"
 	"go/token"
 	"go/types"
+	"sort"
 	"strings"
 
 	"golang.org/x/tools/go/ssa"
